@@ -17,7 +17,6 @@ import Sigverif.Model.Visitor
 import Sigverif.Model.Grammar
 import Sigverif.Model.Discovery
 import Sigverif.Model.WrappersAttr
-import Sigverif.Model.ReadSig
 import Sigverif.Model.ReadSigText
 namespace SV.Proto
 
@@ -507,6 +506,14 @@ def reSplitOp : List String → Option String
     some ("ok " ++ showList (parts.map showPart) ",")
   | _ => none
 
+def readSigTextOp : List String → Option String
+  | ua :: upo :: ukw :: t :: [] => do
+    let cs ← parseText t
+    some (match readSigText encText (← parseB ua) (← parseB upo) (← parseB ukw) cs with
+      | none => "outside"
+      | some r => s!"ok {showNats r.names} {showPairs r.anns "."} {showNats r.poso} {showNats r.kwo} {showList (r.params.map showItem) ","}")
+  | _ => none
+
 /-- one request line → one answer line -/
 def handle (line : String) : String :=
   let toks := (line.splitOn " ").filter (· ≠ "")
@@ -731,6 +738,7 @@ def handle (line : String) : String :=
       let (p, rest') ← parseProg rest
       if rest' ≠ [] then none else
       some (showRes (discovered own (resolveWith tbl pm) (some ((truth p).map (FwdCall.toRec p)))))
+    | "readsigtext" :: rest => readSigTextOp rest   -- the whole of read_sig from the text
     | "resplit" :: rest => reSplitOp rest       -- str.split(',') + re_paramname.match(...).groups() (Model/ReadSigText.lean)
     | "readsig" :: rest => readSigOp rest       -- support.read_sig on pieces (Model/ReadSig.lean)
     | "stext" :: rest => sTextOp rest           -- the parameters of support.s(text, …)
